@@ -13,3 +13,6 @@ import Xrfmv.Props.C13
 #print axioms Xrfmv.Props.C13.decode_valid
 #print axioms Xrfmv.Props.C13.prior_is_distribution
 #print axioms Xrfmv.Props.C13.Q4_contract
+#print axioms Xrfmv.Props.C13.decode_valid_eps0
+#print axioms Xrfmv.Props.C13.pos_entry_of_sum_one
+#print axioms Xrfmv.Props.C13.decode_eps0_zero_row
